@@ -62,6 +62,11 @@ CHECKS = {
    technique="deterministic simulation: per-transaction equations on the oracle replay, exactly-once account ledger folded over the canonical chain of every node after every operation of seeded histories (reorganisations, restarts, crashes), Byzantine blocks with one invalid transaction",
    text="Per transaction: nonce +1, sender -gasUsed x price - value (iff success), coinbase +gasUsed x price, gas between the intrinsic floor and the limit, gas of the storage template equal to a reference evaluator including the half-of-consumed refund cap, failed executions leave no storage, log or code, receipts in the fork's format, cumulative gas = sum = header <= limit. Per history: at every head, every account's nonce and balance equal an independent ledger (template effects, fees, block and uncle rewards) folded over the canonical chain, so a transaction applied twice, not rolled back or charged on an abandoned branch shows. Blocks with a wrong-nonce, unaffordable, under-intrinsic or over-remainder transaction are rejected leaving the node unchanged.",
    note="Trusted: harness, the ledger and gas reference. 'intrinsic <= gasUsed' is judged before the refund (the reported figure may legally drop to half the consumed gas); fields/programs are sampled by generators with boundary cases generated on purpose."),
+
+ "C16": dict(engine="chainsim+schedsim", category="exploration", design_ref="§3 C16",
+   technique="deterministic simulation: real chain indexer, bloom indexer, matcher and filter over a simulated node on the fake clock, gate-scheduled bloom retrieval servers (seeded order/delay of answers, cancellation), brute-force receipt scan and independent bloom function as oracles",
+   text="(a) For every receipt and header of every generated universe, every address and topic of every log tests positive in the receipt and block bloom under an independent 3x11-bit bloom function. (b) Filter.Logs for generated criteria and ranges equals a brute-force scan of the oracle node's canonical receipts in chain order - under every sampled retrieval schedule, while the index is behind the head, across the indexed/unindexed boundary and after reorganisations that invalidate sections; cancelled queries may only return a prefix of the exact answer; a query that never returns once every server was released is a violation.",
+   note="Trusted: synctest, harness, brute-force matcher. The retrieval service is a stub mirroring aqua.startBloomHandlers; the indexer's confirmation depth is lowered through a verif-only constructor so that short chains reach indexed sections."),
 }
 
 def main():
